@@ -251,12 +251,16 @@ class _Relabel:
         return self.new if rule == self.old else rule
 
     def ok(self, rule, *a, **k):
+        if a and isinstance(a[0], str) and a[0].endswith(":fixed-kept"):
+            return
         self.rep.ok(self._r(rule), *a, **k)
 
     def fail(self, rule, *a, **k):
         self.rep.fail(self._r(rule), *a, **k)
 
     def check(self, cond, rule, *a, **k):
+        if a and isinstance(a[0], str) and a[0].endswith(":fixed-kept"):
+            return cond  # whether a FIXED value survives the fit is C11's statement, not C12's
         return self.rep.check(cond, self._r(rule), *a, **k)
 
     def __getattr__(self, n):
